@@ -16,7 +16,7 @@
    (see the _refuted theorems, finding key=bareLF-blank-line-terminator); proved under the guard
    crlf_terminated H, and the guard is exact.  "consumed = |H|" holds on both sides with no guard. *)
 From FH Require Import Model.Base Model.Lines Model.ReqHead Model.RespHead Spec.HeadSpec
-  Proof.HeadLocalProof Proof.HeadTotalProof.
+  Proof.HeadLocalProof Proof.HeadTotalProof Proof.HeadIdleProof.
 Open Scope nat_scope.
 
 (* ---- requests: full strength ---- *)
@@ -66,6 +66,30 @@ Theorem C09_resp_consumed_is_head : forall cfg H S hd n,
 Proof. exact resp_consumed_is_head. Qed.
 Print Assumptions C09_resp_consumed_is_head.
 
+(* ---- "answered without waiting for further input", on the read loop itself ----
+   req_read_idle / resp_read_idle (Model/ReqHead.v read_idle) model RequestHeader.readLoop / ResponseHeader.Read
+   (n := 1, then r.Buffered() + 1; Peek; tryRead) over a DELIVERY SCHEDULE: the i-th Read on the connection returns
+   the i-th chunk, after the last chunk the connection is idle and a Read would block for ever.  For every complete
+   head, EVERY split of it into non-empty reads and every buffer that can hold it, the loop returns an answer
+   (not NeedMore) after at most one Read per chunk — it never issues a Read on the idle connection. *)
+Theorem C09_req_answered_without_extra_read : forall cfg bsize H chunks,
+  HeadComplete H -> concat chunks = H -> all_nonempty chunks -> length H <= bsize ->
+  exists r k, req_read_idle cfg bsize chunks = Answered r k /\ r <> TNeedMore /\ k <= length chunks.
+Proof. exact req_read_idle_answers. Qed.
+Print Assumptions C09_req_answered_without_extra_read.
+
+Theorem C09_resp_answered_without_extra_read_guarded : forall cfg bsize H chunks,
+  HeadComplete H -> crlf_terminated H = true -> concat chunks = H -> all_nonempty chunks -> length H <= bsize ->
+  exists r k, resp_read_idle cfg bsize chunks = Answered r k /\ r <> TNeedMore /\ k <= length chunks.
+Proof. exact resp_read_idle_answers. Qed.
+Print Assumptions C09_resp_answered_without_extra_read_guarded.
+
+(* outside the guard the response loop does park itself in a Read although the head is complete *)
+Theorem C09_resp_answered_without_extra_read_refuted :
+  exists H, HeadComplete H /\ resp_read_idle default_cfg 4096 [H] = AsksMore 1.
+Proof. exact resp_read_idle_refuted. Qed.
+Print Assumptions C09_resp_answered_without_extra_read_refuted.
+
 (* ---- responses: the unguarded statements are FALSE of the code (finding key=bareLF-blank-line-terminator) ---- *)
 Theorem C09_resp_head_local_refuted : exists H S1 S2,
   HeadComplete H /\ resp_head_parse default_cfg (H ++ S1) <> resp_head_parse default_cfg (H ++ S2).
@@ -107,3 +131,9 @@ Example C09_ex_witness :
   resp_head_parse default_cfg bareLF_resp = HNeedMore /\
   (exists hd, resp_head_parse default_cfg (bareLF_resp ++ some_body) = HOk (hd, length bareLF_resp)).
 Proof. vm_compute. repeat split; try reflexivity; eexists; reflexivity. Qed.
+
+(* the last byte of the head delivered by its own Read: answered after 2 reads, no third Read attempted *)
+Example C09_ex_last_byte_alone :
+  let H := s2b "GET / HTTP/1.1" ++ crlf ++ s2b "Host: h" ++ crlf ++ crlf in
+  exists hd, req_read_idle default_cfg 4096 [firstn 26 H; skipn 26 H] = Answered (TOk hd 27) 2.
+Proof. eexists. vm_compute. reflexivity. Qed.
